@@ -58,31 +58,31 @@ func ctx() pongo2.Context {
 
 // canonical valid use of every built-in tag
 var tagUse = map[string]string{
-	"autoescape": "{% autoescape on %}a{% endautoescape %}",
-	"block":      "{% block bq %}a{% endblock %}",
-	"comment":    "{% comment %}a{% endcomment %}",
-	"cycle":      "{% cycle \"a\" \"b\" %}",
-	"extends":    "",
-	"filter":     "{% filter upper %}a{% endfilter %}",
-	"firstof":    "{% firstof x %}",
-	"for":        "{% for i in l %}a{% endfor %}",
-	"if":         "{% if n %}a{% endif %}",
-	"ifchanged":  "{% ifchanged n %}a{% endifchanged %}",
-	"ifequal":    "{% ifequal n 3 %}a{% endifequal %}",
-	"ifnotequal": "{% ifnotequal n 3 %}a{% endifnotequal %}",
-	"import":     "{% import \"lib\" libmac %}",
-	"include":    "{% include \"leaf\" %}",
-	"lorem":      "{% lorem 2 w %}",
-	"macro":      "{% macro mq() %}a{% endmacro %}",
-	"now":        "{% now \"2006\" fake %}",
-	"set":        "{% set z = 1 %}",
-	"spaceless":  "{% spaceless %}<a> </a>{% endspaceless %}",
-	"ssi":        "{% ssi \"leaf\" %}",
+	"autoescape":  "{% autoescape on %}a{% endautoescape %}",
+	"block":       "{% block bq %}a{% endblock %}",
+	"comment":     "{% comment %}a{% endcomment %}",
+	"cycle":       "{% cycle \"a\" \"b\" %}",
+	"extends":     "",
+	"filter":      "{% filter upper %}a{% endfilter %}",
+	"firstof":     "{% firstof x %}",
+	"for":         "{% for i in l %}a{% endfor %}",
+	"if":          "{% if n %}a{% endif %}",
+	"ifchanged":   "{% ifchanged n %}a{% endifchanged %}",
+	"ifequal":     "{% ifequal n 3 %}a{% endifequal %}",
+	"ifnotequal":  "{% ifnotequal n 3 %}a{% endifnotequal %}",
+	"import":      "{% import \"lib\" libmac %}",
+	"include":     "{% include \"leaf\" %}",
+	"lorem":       "{% lorem 2 w %}",
+	"macro":       "{% macro mq() %}a{% endmacro %}",
+	"now":         "{% now \"2006\" fake %}",
+	"set":         "{% set z = 1 %}",
+	"spaceless":   "{% spaceless %}<a> </a>{% endspaceless %}",
+	"ssi":         "{% ssi \"leaf\" %}",
 	"templatetag": "{% templatetag openblock %}",
-	"widthratio": "{% widthratio n 4 100 %}",
-	"with":       "{% with z=1 %}a{% endwith %}",
-	"vtag":       "{% vtag %}",
-	"vtag2":      "{% vtag2 %}",
+	"widthratio":  "{% widthratio n 4 100 %}",
+	"with":        "{% with z=1 %}a{% endwith %}",
+	"vtag":        "{% vtag %}",
+	"vtag2":       "{% vtag2 %}",
 }
 
 func useOfTag(t string) string {
@@ -195,18 +195,30 @@ func fileRoutes() []fileRoute {
 	}
 	return []fileRoute{
 		{"same-file", func(s string) map[string]string { return mk(map[string]string{"/main": s}) }, false},
-		{"included", func(s string) map[string]string { return mk(map[string]string{"/main": `A{% include "sub" %}B`, "/sub": s}) }, false},
-		{"included-if-exists", func(s string) map[string]string { return mk(map[string]string{"/main": `A{% include "sub" if_exists %}B`, "/sub": s}) }, false},
-		{"included-lazy", func(s string) map[string]string { return mk(map[string]string{"/main": `A{% include name %}B`, "/sub": s}) }, true},
-		{"included-lazy-if-exists", func(s string) map[string]string { return mk(map[string]string{"/main": `A{% include name if_exists %}B`, "/sub": s}) }, true},
-		{"extended-parent", func(s string) map[string]string { return mk(map[string]string{"/main": `{% extends "sub" %}`, "/sub": "P" + s}) }, false},
+		{"included", func(s string) map[string]string {
+			return mk(map[string]string{"/main": `A{% include "sub" %}B`, "/sub": s})
+		}, false},
+		{"included-if-exists", func(s string) map[string]string {
+			return mk(map[string]string{"/main": `A{% include "sub" if_exists %}B`, "/sub": s})
+		}, false},
+		{"included-lazy", func(s string) map[string]string {
+			return mk(map[string]string{"/main": `A{% include name %}B`, "/sub": s})
+		}, true},
+		{"included-lazy-if-exists", func(s string) map[string]string {
+			return mk(map[string]string{"/main": `A{% include name if_exists %}B`, "/sub": s})
+		}, true},
+		{"extended-parent", func(s string) map[string]string {
+			return mk(map[string]string{"/main": `{% extends "sub" %}`, "/sub": "P" + s})
+		}, false},
 		{"child-block", func(s string) map[string]string {
 			return mk(map[string]string{"/main": `{% extends "sub" %}{% block cb %}` + s + `{% endblock %}`, "/sub": "P{% block cb %}{% endblock %}"})
 		}, false},
 		{"imported", func(s string) map[string]string {
 			return mk(map[string]string{"/main": `{% import "sub" im %}{{ im() }}`, "/sub": "{% macro im() export %}" + s + "{% endmacro %}"})
 		}, false},
-		{"ssi-parsed", func(s string) map[string]string { return mk(map[string]string{"/main": `A{% ssi "sub" parsed %}B`, "/sub": s}) }, false},
+		{"ssi-parsed", func(s string) map[string]string {
+			return mk(map[string]string{"/main": `A{% ssi "sub" parsed %}B`, "/sub": s})
+		}, false},
 		{"two-levels", func(s string) map[string]string {
 			return mk(map[string]string{"/main": `A{% include "mid" %}B`, "/mid": `{% include "sub" %}`, "/sub": s})
 		}, false},
@@ -243,6 +255,19 @@ func (c *RouteCase) ID() string {
 
 func (c *RouteCase) Exec(t *eng.T) {
 	register()
+	if !c.Uses && c.Kind == "filter" {
+		// a control must really be free of the banned filter (wrappers such as the filter-tag body use filters themselves)
+		m := &model{tags: map[string]bool{}, filters: map[string]bool{c.Target: true}}
+		for name, src := range c.Files {
+			if name == "/leaf" || name == "/lib" {
+				continue
+			}
+			if !m.usesOK(src) {
+				t.Skip()
+				return
+			}
+		}
+	}
 	if !c.Uses && c.Kind == "tag" {
 		// a control must really be free of the banned tag (the wrappers and file routes use tags themselves)
 		for name, src := range c.Files {
@@ -637,7 +662,7 @@ func init() {
 	eng.Register(&eng.Check{
 		ID:    "C03",
 		Title: "Sandbox: a banned tag or filter cannot be used by any route",
-		Rule: "bounded-exhaustive: (routes) for every registered tag and filter as ban target, a template using it at every syntactic position / nesting body / file-composition route is compiled (lazy routes: executed) in a set that banned it: it must be refused, invocation counters of harness-registered probe tag/filter must stay 0, a banned include/ssi/import/extends must fetch nothing, a second set must be unaffected; a control template using another name must behave byte-identically to a fresh set. (histories) every call history up to the depth bound on a fresh set is replayed on the real set and every return value and a final vector of probe verdicts is compared with the ban-set/frozen-flag model. Non-trivial: the route compiles without the ban.",
+		Rule:  "bounded-exhaustive: (routes) for every registered tag and filter as ban target, a template using it at every syntactic position / nesting body / file-composition route is compiled (lazy routes: executed) in a set that banned it: it must be refused, invocation counters of harness-registered probe tag/filter must stay 0, a banned include/ssi/import/extends must fetch nothing, a second set must be unaffected; a control template using another name must behave byte-identically to a fresh set. (histories) every call history up to the depth bound on a fresh set is replayed on the real set and every return value and a final vector of probe verdicts is compared with the ban-set/frozen-flag model. Non-trivial: the route compiles without the ban.",
 		Assumptions: []string{
 			"the Render* shortcuts wrap compile errors in Must: a panic carrying a *pongo2.Error counts as the refusal the property asks for",
 			"a From* call that fails to load its file is not part of the history alphabet (whether it freezes the set is left open)",
